@@ -234,9 +234,9 @@ func run(c *vf.Ctx) {
 	partHostileIdentity(c, g)
 	partGitWritten(c, g)
 	c.Extra("git_invocations", gitx.Calls.Load())
-	c.Floor("entries appended by go-git and listed by git", c.Counter("appended_entries_listed"), c.N(450, 8000))
-	c.Floor("git-written reflog entries decoded by go-git", c.Counter("git_written_entries_compared"), c.N(120, 1800))
-	c.Floor("message normalisations confirmed by git update-ref -m", c.Counter("git_normalise_confirmations"), c.N(8, 120))
+	c.Floor("entries appended by go-git and listed by git", c.Counter("appended_entries_listed"), c.N(450, 4500))
+	c.Floor("git-written reflog entries decoded by go-git", c.Counter("git_written_entries_compared"), c.N(120, 1000))
+	c.Floor("message normalisations confirmed by git update-ref -m", c.Counter("git_normalise_confirmations"), c.N(8, 70))
 	c.Floor("distinct git command kinds writing reflogs", c.SeenCount("git_ops"), 8)
 	c.Assume("git log -g --date=raw prints the zone through an int (%+05d): -0000 is shown as +0000 by git itself, so the sign of a zero offset is not compared")
 	c.Assume("timestamp 0 is not generated: git's reflog reader (files-backend show_one_reflog_ent) treats a line whose timestamp parses to 0 as corrupt and silently skips it")
@@ -262,7 +262,7 @@ func setupRepo(c *vf.Ctx, g *gitx.Git, name string, r *rand.Rand, n int) (dir st
 }
 
 func partAppend(c *vf.Ctx, g *gitx.Git) {
-	nrepos := c.N(6, 100)
+	nrepos := c.N(6, 60)
 	refsPer := 22
 	vf.Parallel(nrepos, 6, func(ri int) {
 		r := c.Rand("append", ri)
@@ -468,7 +468,7 @@ func rawFile(dir, ref string) string {
 }
 
 func partGitWritten(c *vf.Ctx, g *gitx.Git) {
-	nrepos := c.N(9, 110)
+	nrepos := c.N(9, 65)
 	vf.Parallel(nrepos, 6, func(ri int) {
 		r := c.Rand("gitwritten", ri)
 		dir := c.TempDir(fmt.Sprintf("gw%d", ri))
